@@ -136,6 +136,10 @@ type TaskCtx struct {
 
 	// violations detected by oracle built-ins while the program runs
 	HostViol []Violation
+
+	// OnStep, if set, is called at every scheduling point of the VM
+	// (white-box invariants that must hold throughout a run).
+	OnStep func()
 }
 
 const simKey = "starsim"
@@ -157,6 +161,9 @@ func installHooks() {
 		}
 		if c.YieldInVM && c.T != nil {
 			c.T.Yield()
+		}
+		if c.OnStep != nil {
+			c.OnStep()
 		}
 		if c.Model != nil {
 			c.RegAtCheck, c.RegAtCheckSet = c.Model.read()
@@ -389,7 +396,7 @@ func (w *World) Predeclared() starlark.StringDict {
 			if strings.Contains(msg, "Starlark computation cancelled") {
 				return nil, err // cancellation is never swallowed
 			}
-			c.record("attempt:err:" + msg)
+			c.record("attempt:err:" + outcome(err))
 			c.note(EvAttempt, "err")
 			return starlark.False, nil
 		}
